@@ -188,10 +188,11 @@ def parse_corpus():
     return progs
 
 
-def prebuild_corpus():
-    return [(n, s) for n, s in F.statement_family()
-            if n.split('_')[0] in ('select', 'if', 'while', 'foreach', 'relate', 'unrelate', 'create', 'delete', 'return', 'break',
-                                   'continue', 'stop', 'assign', 'sequence')]
+def prebuild_corpus(tier='quick'):
+    '''Programs that are well-formed and name-resolved in the prebuild host (function home).'''
+    from mc.refs import prebuildhost as H
+    progs = list(H.prebuild_corpus(tier=tier))
+    return progs[::3] if tier == 'quick' else progs
 
 
 def run(ctx):
@@ -202,7 +203,8 @@ def run(ctx):
     corpus = interpret_corpus(ctx.tier)
     ctx.pmap(interpret_task, [(ctx.tier, c) for c in chunks(corpus, 10)])
     if prebuild_available():
-        ctx.pmap(prebuild_task, [(ctx.tier, c) for c in chunks(prebuild_corpus(), 4)])
+        ctx.pmap(prebuild_task, [(ctx.tier, c) for c in chunks(prebuild_corpus(ctx.tier), 6)])
+        ctx.require(ctx.n('prebuild_runs') >= 300, 'too few prebuild renderings (%d)' % ctx.n('prebuild_runs'))
     else:
         ctx.notes['prebuild'] = 'prebuild host not available in this revision'
     p = A.print_program(progs[50][1])
